@@ -322,7 +322,7 @@ Proof.
   destruct (fill_activate u1 t a l_init Ha Hq eq_refl) as [st [H1 [H2 [H3 [H4 [H5 H6]]]]]].
   exists st. simpl in *. repeat split; auto.
   - rewrite H4. unfold uniform. lra.
-  - unfold l_run. simpl. rewrite H1. unfold l_get. rewrite H6. simpl. rewrite H2. reflexivity.
+  - unfold l_run, l_reset. rewrite H1. unfold l_get. rewrite H6. cbn [negb fst]. rewrite H2. reflexivity.
 Qed.
 
 Lemma position_eq s u1 u2 t a st :
@@ -350,8 +350,8 @@ Proof.
   assert (HS := balanced_S t Hb).
   assert (HP := pos_before_nonneg a t).
   assert (HL := pos_before_le a t Ha). rewrite (weight_pos _ Hq) in HL.
+  unfold mem_oc, seg. rewrite (weight_pos _ Hq).
   set (q := rate_at a t) in *. set (P := pos_before a t) in *.
-  unfold mem_oc, seg. rewrite (weight_pos _ Hq). fold q P.
   destruct s; unfold draw_range, draw_in, mem_oc, mem_co in Hr; simpl in Hr, Hp |- *; destruct Hr as [R1 R2].
   - assert (0 < u1 * q) by (apply Qmult_lt_0_compat; auto).
     assert (u1 * q <= q) by (apply mul_le_one; lra). repeat split; lra.
@@ -370,9 +370,11 @@ Lemma sel_int_mem s u1 u2 t a k st :
 Proof.
   intros Hq HS H2 H4.
   assert (Hp := position_eq s u1 u2 t a st H2 H4).
-  set (I := inter (seg s t a) (win t k)) in *.
+  remember (l_position s u2 st) as p eqn:Ep. clear Ep.
+  unfold sel_int. cbv zeta.
+  remember (inter (seg s t a) (win t k)) as I eqn:EI. clear EI.
   set (q := rate_at a t) in *. set (P := pos_before a t) in *.
-  destruct s; unfold draw_in, sel_int; fold I q P; unfold mem_oc, mem_co; simpl lo; simpl hi; simpl in Hp.
+  destruct s; unfold draw_in, mem_oc, mem_co; cbn [lo hi].
   - rewrite div_lt_iff, le_div_iff by auto. split; intros [A B]; split; lra.
   - rewrite div_le_iff, lt_div_iff by auto. split; intros [A B]; split; lra.
   - rewrite div_lt_iff, le_div_iff by auto. split; intros [A B]; split; lra.
@@ -489,7 +491,8 @@ Proof.
                  ((top - weight (fst e)) - pos_before a t)) w))).
     + rewrite IH.
       rewrite <- (len_inter_split (top - possum (e :: t)) (top - weight (fst e)) top w).
-      * rewrite Qplus_comm. apply Qplus_comp.
+      * rewrite (Qplus_comm (len (inter (mkI (top - possum (e :: t)) (top - weight (fst e))) w))).
+        apply Qplus_comp.
         -- apply len_inter_ext; [|apply ieq_refl]. unfold ieq, pos_before, possum, rate_at, rates.
            simpl. split; lra.
         -- apply len_inter_ext; [|apply ieq_refl]. unfold ieq, possum. simpl. split; lra.
@@ -559,10 +562,10 @@ Proof.
   destruct s.
   - rewrite (qsum_map_ext _ (fun a => len (inter (seg InsideFirst t a) (win t k))))
       by (intros; apply term_eq; congruence).
-    rewrite segments_tile_sum by congruence. rewrite len_inter_comm, len_inter_sub; simpl; lra.
+    rewrite segments_tile_sum by congruence. rewrite len_inter_comm, len_inter_sub; cbn [lo hi]; lra.
   - rewrite (qsum_map_ext _ (fun a => len (inter (seg OutsideFirst t a) (win t k))))
       by (intros; apply term_eq; congruence).
-    rewrite segments_tile_sum by congruence. rewrite len_inter_comm, len_inter_sub; simpl; lra.
+    rewrite segments_tile_sum by congruence. rewrite len_inter_comm, len_inter_sub; cbn [lo hi]; lra.
   - (* ratio: every positive unit sends the same fraction n_k / S *)
     destruct (Qlt_le_dec 0 (S_neg t)) as [Hpos | Hzero].
     + rewrite (qsum_map_ext _ (fun a => (nth k (negs t) 0 / S_neg t) * weight (rate_at a t))).
@@ -571,7 +574,7 @@ Proof.
         assert (L := len_scale 0 (S_neg t) (lo (inter (seg Ratio t a) (win t k)))
                        (hi (inter (seg Ratio t a) (win t k))) Hpos).
         assert (L2 : len (inter (seg Ratio t a) (win t k)) == nth k (negs t) 0).
-        { rewrite len_inter_comm, len_inter_sub; simpl; lra. }
+        { rewrite len_inter_comm, len_inter_sub; unfold seg; cbn [lo hi]; lra. }
         set (X := len (mkI _ _)) in *.
         assert (X == nth k (negs t) 0 / S_neg t).
         { apply (Qmult_inj_r _ _ (S_neg t)). lra.
